@@ -10,6 +10,10 @@ func init() {
 		g(c, "gQuorumJoint", gQuorumJoint)
 		g(c, "gRoute", gRoute)
 		g(c, "cSnapClear", cSnapClear) // a pending snapshot dropped unwritten leaves commit beyond the log
+		g(c, "sliceRules", sliceRules) // an append message carries a contiguous slice: acknowledgements mean what the leader thinks
+		c.OnlyRules = map[string]bool{"C05.E": true}
+		g(c, "c05Extras", c05Extras)
+		c.OnlyRules = nil
 	}})
 	register(&PropertyRule{ID: "C02", Explain: "structural necessary conditions of C02 (election safety): see DESIGN.md §5 C02", Run: func(c *Check) {
 		g(c, "gVote", gVote)
@@ -19,6 +23,7 @@ func init() {
 		g(c, "gQuorumJoint", gQuorumJoint)
 		g(c, "c10Hup", c10Hup)
 		g(c, "c10Gate", c10Gate) // one configuration change at a time: electorates of consecutive configurations overlap
+		g(c, "gRoute", gRoute) // a granted vote leaves the node only behind the write that records it
 	}})
 	register(&PropertyRule{ID: "C12", Explain: "structural necessary conditions of C12 (quorum arithmetic): see DESIGN.md §5 C12", Run: func(c *Check) {
 		g(c, "c12Quorum", c12Quorum)
@@ -64,6 +69,9 @@ func init() {
 		g(c, "gCommitMono", gCommitMono)
 		g(c, "c06Follower", c06Follower)
 		g(c, "c05Extras", c05Extras)
+		c.OnlyRules = map[string]bool{"C15.N": true}
+		g(c, "c15Recovery", c15Recovery) // a persisted snapshot is acknowledged across a term change
+		c.OnlyRules = nil
 	}})
 	register(&PropertyRule{ID: "C10", Explain: "structural necessary conditions of C10 (membership changes): see DESIGN.md §5 C10", Run: func(c *Check) {
 		g(c, "c10ConfChange", c10ConfChange)
@@ -103,6 +111,10 @@ func init() {
 		g(c, "gMatchAck", gMatchAck)
 		g(c, "c10Gate", c10Gate)
 		g(c, "c10Hup", c10Hup)
+		g(c, "gCommitMono", gCommitMono) // what was committed (and acknowledged) is not rolled back
+		c.OnlyRules = map[string]bool{"C09.G": true}
+		g(c, "c09Install", c09Install)
+		c.OnlyRules = nil
 	}})
 	register(&PropertyRule{ID: "C11", Explain: "structural necessary conditions of C11 (ReadIndex, ReadOnlySafe): see DESIGN.md §5 C11", Run: func(c *Check) {
 		g(c, "c11ReadIndex", c11ReadIndex)
@@ -145,6 +157,9 @@ func init() {
 		g(c, "c11ReadIndex", c11ReadIndex)
 		c.OnlyRules = nil
 		g(c, "cSnapClear", cSnapClear) // a pending snapshot dropped unwritten leaves commit beyond the log: the next Ready asserts
+		c.OnlyRules = map[string]bool{"C16.I": true}
+		g(c, "c16FlowControl", c16FlowControl) // Inflights.Add asserts room: entries are fetched only when the window has room
+		c.OnlyRules = nil
 	}})
 	register(&PropertyRule{ID: "C15", Explain: "C15 (convergence): existence of each recovery edge only; see DESIGN.md §5 C15", Run: func(c *Check) {
 		g(c, "c15Recovery", c15Recovery)
